@@ -114,3 +114,51 @@ Fixpoint report_from {A} (run : A -> pstr) (i : N) (cases : list (A * pstr)) : l
            end
   end.
 Definition report {A} (run : A -> pstr) (cases : list (A * pstr)) : list N := report_from run 0 cases.
+
+(* The same report for very long observations (real sklearn diagrams: ~50k code points per step): tail recursive
+   throughout, and instead of the whole step only a window of the model's text around the first differing position:
+   [case index; step; 1 + window length; offset of the window in the step; window]. *)
+Fixpoint split_tr (sep : N) (a cur : pstr) (acc : list pstr) : list pstr :=
+  match a with
+  | [] => rev_append acc [rev_append cur []]
+  | c :: a' => if c =? sep then split_tr sep a' [] (rev_append cur [] :: acc) else split_tr sep a' (c :: cur) acc
+  end.
+
+Fixpoint first_diff2 (i : N) (xs ys : list pstr) : option (N * pstr * pstr) :=
+  match xs, ys with
+  | [], [] => None
+  | x :: xs', y :: ys' => if pstr_eqb x y then first_diff2 (i + 1) xs' ys' else Some (i, x, y)
+  | [], y :: _ => Some (i, [], y)
+  | x :: _, [] => Some (i, x, [])
+  end.
+
+Fixpoint diff_pos (i : N) (a b : pstr) : N :=
+  match a, b with
+  | x :: a', y :: b' => if x =? y then diff_pos (i + 1) a' b' else i
+  | _, _ => i
+  end.
+
+Fixpoint take_tr (n : nat) (a acc : pstr) : pstr :=
+  match n, a with
+  | S n', c :: a' => take_tr n' a' (c :: acc)
+  | _, _ => rev_append acc []
+  end.
+
+Fixpoint report_clipped_from {A} (cap : N) (run : A -> pstr) (i : N) (cases : list (A * pstr)) (acc : list N) : list N :=
+  match cases with
+  | [] => rev_append acc []
+  | (a, expected) :: cs =>
+      let got := run a in
+      if pstr_eqb got expected then report_clipped_from cap run (i + 1) cs acc
+      else match first_diff2 0 (split_tr (U 7) expected [] []) (split_tr (U 7) got [] []) with
+           | Some (step, x, y) =>
+               let p := diff_pos 0 x y in
+               let off := p - N.min p 60 in
+               let w := take_tr (N.to_nat cap) (skipn (N.to_nat off) y) [] in
+               report_clipped_from cap run (i + 1) cs
+                 (rev_append (i :: step :: N.of_nat (S (length w)) :: off :: w) acc)
+           | None => report_clipped_from cap run (i + 1) cs (0 :: 0 :: i :: acc)
+           end
+  end.
+Definition report_clipped {A} (cap : N) (run : A -> pstr) (cases : list (A * pstr)) : list N :=
+  report_clipped_from cap run 0 cases [].
